@@ -198,6 +198,11 @@ func RWRUnlock(m *RWState) {
 }
 
 func WGAdd(g *WGState, d int) {
+	if d > 0 && !direct() && !foreign() {
+		// a scheduling point before a positive Add: a Wait that runs first sees the old count (the classic
+		// Add-after-Wait race); Done needs none, the code before it up to the previous point moves with it
+		yield(pendingOp{kind: opYield, what: "WaitGroup.Add"})
+	}
 	if d < 0 {
 		hbReleaseJoin(&g.vc)
 	}
